@@ -361,6 +361,31 @@ Fixpoint run_requests (c : config) (fs : fsys) (fm : filemap) (rqs : list reques
 Definition run_model (c : config) (fs : fsys) (rqs : list request) : list (resp * logt) :=
   run_requests c fs [] rqs.
 
+(* several view instances in one process, requests interleaved.  static_view.__init__ does
+   `self.filemap = {}`: the filemap is per-instance state (regenerated fact; were it shared,
+   every instance would read and write slot 0) *)
+Definition dflt_cfg : config := mkConfig 3 [] false [] [] [] [] [] [] [] false.
+
+Fixpoint set_nth {A} (n : nat) (x : A) (l : list A) : list A :=
+  match n, l with
+  | O, _ :: r => x :: r
+  | S k, y :: r => y :: set_nth k x r
+  | _, [] => []
+  end.
+
+Fixpoint run_multi (cs : list config) (fs : fsys) (fms : list filemap) (rqs : list (nat * request))
+  : list (resp * logt) :=
+  match rqs with
+  | [] => []
+  | (i, rq) :: r =>
+      let j := if filemap_per_instance then i else O in
+      let '((res, fm'), log) := run_request (nth i cs dflt_cfg) fs (nth j fms []) rq in
+      (res, log) :: run_multi cs fs (set_nth j fm' fms) r
+  end.
+
+Definition run_multi_model (cs : list config) (fs : fsys) (rqs : list (nat * request)) : list (resp * logt) :=
+  run_multi cs fs (map (fun _ => []) cs) rqs.
+
 (* ------------------------------------------------------------ declarative specification *)
 (* outcome the property allows; S200: the allowed (content, encoding label) pairs *)
 Inductive spec_out :=
@@ -510,12 +535,13 @@ Definition get_config (v : val) : option config :=
   | _ => None
   end.
 
-Definition get_request (v : val) : option request :=
+Definition get_request (v : val) : option (nat * request) :=
   match v with
-  | VL [raw; sub; qs; ae; ok] =>
+  | VL [inst; raw; sub; qs; ae; ok] =>
+      olet inst := get_nat inst in
       olet raw := get_text raw in olet sub := get_texts sub in olet qs := get_text qs in
       olet ae := get_bool ae in olet ok := get_texts ok in
-      Some (mkReq raw sub qs ae ok)
+      Some (inst, mkReq raw sub qs ae ok)
   | _ => None
   end.
 
@@ -545,11 +571,12 @@ Definition put_spec (s : spec_out) : val :=
   | SUnspec => VL [VI 0]
   end.
 
-(* case = [config; requests; fs]
-   answer = [ [model response; model trace; spec; conforms(model, spec); contained(trace)] per request;
+(* case = [configs (one per view instance); requests [instance; ...]; fs]
+   answer = [ [model response; model trace; spec; conforms(model, spec); contained(trace)] per request, each judged
+              against the configuration of its own instance;
               secure_path of the last request's subpath; spec_secure of it ] *)
-Definition last_subpath (rqs : list request) : list text :=
-  match rev rqs with rq :: _ => r_subpath rq | [] => [] end.
+Definition last_subpath (rqs : list (nat * request)) : list text :=
+  match rev rqs with (_, rq) :: _ => r_subpath rq | [] => [] end.
 
 (* Lib/Utf8 against CPython: every sequence prefix ++ suffix with |suffix| = n; for each
    accepted sequence the suffix, the code points, and whether re-encoding gives the bytes back *)
@@ -570,11 +597,13 @@ Definition run_C16 (v : val) : val :=
   ret_or_bad (
     match v with
     | VL [VI 1%Z; VT prefix; VI n] => Some (utf8_sweep prefix (Z.to_nat n))
-    | VL [c; r; f] =>
-        olet c := get_config c in olet rqs := get_list_of get_request r in olet fs := get_list_of get_entry f in
-        let outs := run_model c fs rqs in
-        let one (x : request * (resp * logt)) :=
-          let '(rq, (res, log)) := x in
+    | VL [cs; r; f] =>
+        olet cs := get_list_of get_config cs in olet rqs := get_list_of get_request r in
+        olet fs := get_list_of get_entry f in
+        let outs := run_multi_model cs fs rqs in
+        let one (x : (nat * request) * (resp * logt)) :=
+          let '((i, rq), (res, log)) := x in
+          let c := nth i cs dflt_cfg in
           let sp := spec_response c rq fs in
           VL [put_resp res; put_log log; put_spec sp; vbool (conforms res sp); vbool (contained c log)] in
         Some (VL [VL (map one (combine rqs outs));
